@@ -333,8 +333,8 @@ def build_model_runner(timeout=900):
     with Lock("ocaml"):
         d = os.path.join(CACHE, "ocaml")
         os.makedirs(d, exist_ok=True)
-        srcs = [os.path.join(COQ, "extract", "Extract.v"),
-                os.path.join(VERIF, "ocaml", "driver.ml"), os.path.join(VERIF, "ocaml", "sexp.ml")]
+        hand = sorted(f for f in os.listdir(os.path.join(VERIF, "ocaml")) if f.endswith(".ml"))
+        srcs = [os.path.join(COQ, "extract", "Extract.v")] + [os.path.join(VERIF, "ocaml", f) for f in hand]
         h = hashlib.sha256()
         for p in coq_sources() + srcs:
             if "/props/" in p:
@@ -359,7 +359,7 @@ def build_model_runner(timeout=900):
                            os.path.join(COQ, "extract", "Extract.v")], cwd=d, timeout=timeout)
         if rc != 0:
             return False, out + err
-        for f in ("driver.ml", "sexp.ml"):
+        for f in hand:
             with open(os.path.join(d, f), "w") as g:
                 g.write(open(os.path.join(VERIF, "ocaml", f)).read())
         extra = sorted(f for f in os.listdir(d) if re.match(r"model_[a-z0-9]+\.ml$", f))
@@ -368,7 +368,7 @@ def build_model_runner(timeout=900):
                 os.remove(os.path.join(d, f))
             except OSError:
                 pass
-        mls = " ".join(["sexp.ml", "model.ml"] + extra + ["driver.ml"])
+        mls = " ".join(["sexp.ml", "model.ml"] + extra + [f for f in hand if f.startswith("drv_")] + ["driver.ml"])
         rc, out, err = sh("ocamlfind ocamlopt -O2 -w -a -package str %s -o model_runner 2>&1 || "
                           "ocamlfind ocamlopt -w -a %s -o model_runner" % (mls, mls),
                           cwd=d, timeout=timeout)
